@@ -185,7 +185,9 @@ def prepare_haplotag_information(
     # the sample is None if read groups are ignored
     read_to_haplotype = {}
 
-    for sample in shared_samples:
+    # shared_samples is a set: iterate in a defined order. With ignored read groups the
+    # assignments of all samples share one key, and the sample processed last wins
+    for sample in sorted(shared_samples):
         key_sample = None if ignore_read_groups else sample
         variantpos_to_phaseinfo, variants = get_variant_information(variant_table, sample)
         read_set, _ = phased_input_reader.read(
